@@ -184,31 +184,4 @@ def cfgOf (j : Json) : Gn.Config :=
     paramCase := ((getS j "param_case").toOption.getD "camelCase").toList,
     fieldCase := ((getS j "field_case").toOption.getD "snake_case").toList }
 
-def opProject (inp imp : Json) : Except String Json := do
-  let p ← projectOf (← inp.getObjVal? "project")
-  let cfg := cfgOf ((inp.getObjVal? "config").toOption.getD Json.null)
-  let a := analyze p
-  let mj := analysisJson a
-  let diffA := ["commands", "events", "structs", "deps"].filter fun k =>
-    (imp.getObjVal? k).toOption != (mj.getObjVal? k).toOption
-  -- generation
-  let out := Gn.generate cfg a
-  let noCommands := a.commands.isEmpty
-  let modelFiles : List (String × Str) :=
-    if noCommands then [] else
-    [("types.ts", Gn.fileText out.types), ("commands.ts", Gn.fileText out.commands)] ++
-    (match out.events with | some e => [("events.ts", Gn.fileText e)] | none => []) ++
-    [("index.ts", Gn.fileText out.index)]
-  let implFiles := (imp.getObjVal? "files").toOption.getD (Json.mkObj [])
-  let implNames : List String := match implFiles with | .obj kvs => kvs.toList.map (·.1) | _ => []
-  let diffF := (modelFiles.filter fun (n, t) =>
-      match implFiles.getObjVal? n with
-      | .ok (.str it) => squash (dropHeader it.toList) != squash t
-      | _ => true).map (·.1) ++
-    (implNames.filter fun n => !(modelFiles.any fun m => m.1 == n))
-  let agree := diffA.isEmpty && diffF.isEmpty
-  pure <| obj [("model", obj [("analysis", mj), ("files", Json.mkObj (modelFiles.map fun (n, t) => (n, jstr t)))]),
-    ("agree", jb agree), ("diff", jSs (diffA ++ diffF)),
-    ("oracle_impl", obj []), ("oracle_model", obj []), ("nontrivial", jb (!noCommands)), ("class", Json.arr #[])]
-
 end Drv
